@@ -43,7 +43,7 @@ def add_system_post(self, s, old):
     return (len(Q) == len(Q0) + 1 and k <= len(Q0)
             and all(Q[j] is Q0[j] and Q0[j].priority >= s.priority for j in range(0, k))
             and all(Q[j + 1] is Q0[j] for j in range(k, len(Q0)))
-            and implies(k < len(Q0), Q0[k].priority < s.priority)
+            and (k >= len(Q0) or Q0[k].priority < s.priority)
             and s.id in S and S[s.id] is s and len(S) == len(S0) + 1
             and all(k2 in S and S[k2] is S0[k2] and order_of(S, k2) < order_of(S, s.id) for k2 in S0)
             and all(implies(order_of(S0, a) < order_of(S0, b), order_of(S, a) < order_of(S, b))
